@@ -138,9 +138,13 @@ def convert_response(response) -> List[Trigger]:
     """
     all_triggers: Dict[str, Trigger] = {}
     for r in response:
+        try:
+            metrics = __convert_metric_definition(r.metrics)
+        except ValueError:
+            # a metric type this client does not know: we cannot interpret this tracepoint, the others are still installed
+            continue
         # from the incoming tracepoints create a Trigger with actions
-        trigger = build_trigger(r.ID, r.path, r.line_number, dict(r.args), [w for w in r.watches],
-                                __convert_metric_definition(r.metrics))
+        trigger = build_trigger(r.ID, r.path, r.line_number, dict(r.args), [w for w in r.watches], metrics)
         if trigger is None:
             # we cannot interpret this tracepoint (e.g. unknown stage): skip it, the others are still installed
             continue
